@@ -219,6 +219,12 @@ class ProgramIndex:
         from .normalize import expand_callable_tables
 
         self.normalised += expand_callable_tables(trees_)
+        from .normalize import destructure_indexed_results
+
+        self.normalised += destructure_indexed_results(trees_)
+        from .normalize import inline_simple_generators
+
+        self.normalised += inline_simple_generators(trees_)
         for m in self.modules.values():
             self._index_module(m)
         self.digest = digest.hexdigest()
